@@ -93,6 +93,15 @@ func c03(c *wk.Ctx) {
 				}
 			}()
 		}
+		if rng.Intn(5) == 0 { // up to three strings / buffers whose length is within 4 of a power of two (28 .. 4100)
+			mid := 3
+			vo.MidStr = &mid
+			defer func() {
+				if mid < 3 {
+					c.Count("values_with_strings_of_a_length_near_a_power_of_two", 1)
+				}
+			}()
+		}
 		v := fixDyn(rng, t, rc.GenValue(rng, t, vo))
 		if rng.Intn(6) == 0 && t.Has(rc.Dyn) { // dynamic values holding nothing (value.Void(), 5 bytes each): some or all of them
 			all := rng.Intn(2) == 0
